@@ -198,17 +198,23 @@ def main():
         os.unlink(os.path.join(OUT, 'replays', pid, f))
     global CTX
     timeout_ms = 10000 if tier == 'quick' else 30000
-    ctx = Context(repo_root=REPO, timeout_ms=int(os.environ.get('PYVC_TIMEOUT_MS', timeout_ms)), seed=seed)
+    def make_ctx(sidecars):
+        c_ = Context(repo_root=REPO, timeout_ms=int(os.environ.get('PYVC_TIMEOUT_MS', timeout_ms)), seed=seed)
+        c_.on_fail = lambda I, ob, model: setattr(ob, 'scenario', concretise(c_, I, model))
+        for plug in cfg.get('plugins', []):
+            mod = __import__('pyvc.' + plug, fromlist=['x'])
+            c_.plugins.append(mod.Plugin(c_))
+        for sc in sidecars:
+            c_.load_sidecar(sc)
+        for pl in c_.plugins:
+            pl.loaded(c_)
+        c_.finalize()
+        return c_
+    # sidecar_groups: sidecars whose declarations must not see each other (an opaque(...) of one file changes how the code is read
+    # for every contract loaded with it) are verified in separate registries, one after the other; the results are merged
+    groups = cfg.get('sidecar_groups') or [cfg['sidecars']]
+    ctx = make_ctx(groups[0])
     CTX = ctx
-    ctx.on_fail = lambda I, ob, model: setattr(ob, 'scenario', concretise(ctx, I, model))
-    for plug in cfg.get('plugins', []):
-        mod = __import__('pyvc.' + plug, fromlist=['x'])
-        ctx.plugins.append(mod.Plugin(ctx))
-    for sc in cfg['sidecars']:
-        ctx.load_sidecar(sc)
-    for pl in ctx.plugins:
-        pl.loaded(ctx)
-    ctx.finalize()
     results = []
     checker_failures = []
     # 0. axiom hygiene: the axiom set must not prove False
@@ -237,27 +243,80 @@ def main():
         r['bound'] = nc.get('bound', '')
         r['role'] = nc.get('role', 'stand-in')
         native_results.append(r)
-    # 1. lemmas (serial: later lemmas may use earlier ones)
     lemma_reports = {}
-    for name in ctx.registry.lemma_order:
-        rep = ctx.verify_lemma(ctx.registry.lemmas[name])
-        lemma_reports[name] = rep
-    lemma_obs = [obl_dict(o, ctx) for o in ctx.obligations]
-    for name, rep in lemma_reports.items():
-        for u in rep.unsupported:
-            lemma_obs.append({'name': 'lemma %s:script' % name, 'func': 'lemma ' + name, 'kind': 'lemma', 'status': 'failed',
-                              'backend': '-', 'secs': 0, 'detail': u})
-    # 2. functions (parallel)
-    keys = [k for k, c in ctx.registry.contracts.items() if not c.assumed and (a.only is None or a.only in k[1])
-            and (cfg.get('functions') is None or k in cfg['functions'] or list(k) in cfg.get('functions', []))]
-    assumed = [k for k, c in ctx.registry.contracts.items() if c.assumed]
-    ctx.obligations = []
-    if a.jobs > 1 and len(keys) > 1:
-        mpctx = multiprocessing.get_context('fork')
-        with mpctx.Pool(min(a.jobs, len(keys))) as pool:
-            results = pool.map(verify_one, keys, chunksize=1)
-    else:
-        results = [verify_one(k) for k in keys]
+    lemma_obs = []
+    keys = []
+    assumed = []
+    ctx_of = {}
+    all_ctx = []
+    done_keys = set()
+    for gi_, grp_ in enumerate(groups):
+        if gi_ > 0:
+            ctx = make_ctx(grp_)
+            CTX = ctx
+        all_ctx.append(ctx)
+        # 1. lemmas (serial: later lemmas may use earlier ones)
+        reps_ = {}
+        for name in ctx.registry.lemma_order:
+            if name in lemma_reports:
+                continue
+            rep = ctx.verify_lemma(ctx.registry.lemmas[name])
+            reps_[name] = rep
+        lemma_obs += [obl_dict(o, ctx) for o in ctx.obligations]
+        for name, rep in reps_.items():
+            for u in rep.unsupported:
+                lemma_obs.append({'name': 'lemma %s:script' % name, 'func': 'lemma ' + name, 'kind': 'lemma', 'status': 'failed',
+                                  'backend': '-', 'secs': 0, 'detail': u})
+        lemma_reports.update(reps_)
+        # 2. functions (parallel)
+        keys_ = [k for k, c in ctx.registry.contracts.items() if not c.assumed and (a.only is None or a.only in k[1]) and k not in done_keys
+                 and (cfg.get('functions') is None or k in cfg['functions'] or list(k) in cfg.get('functions', []))]
+        done_keys |= set(keys_)
+        assumed += [k for k, c in ctx.registry.contracts.items() if c.assumed and k not in assumed]
+        for k_ in keys_:
+            ctx_of[k_] = ctx
+        ctx.obligations = []
+        if a.jobs > 1 and len(keys_) > 1:
+            mpctx = multiprocessing.get_context('fork')
+            with mpctx.Pool(min(a.jobs, len(keys_))) as pool:
+                results += pool.map(verify_one, keys_, chunksize=1)
+        else:
+            results += [verify_one(k) for k in keys_]
+        keys += keys_
+    if len(all_ctx) > 1:
+        # one view for the reporting code below: every group's contracts and assumptions
+        for c_ in all_ctx[:-1]:
+            for k_, v_ in c_.registry.contracts.items():
+                ctx.registry.contracts.setdefault(k_, v_)
+            ctx.assumptions |= c_.assumptions
+    # 2b. second attempt, serial and with three times the budget, for every function with an obligation that was not discharged: a verdict
+    # must not depend on how busy the machine was while the pool ran (DESIGN 12.1, solver budget).  Only the second result counts.
+    second = []
+    if os.environ.get('PYVC_SECOND', '1') != '0':
+        t_second = time.time()
+        cand_ = [(len({o['name'] for o in r_['obligations'] if o['status'] != 'discharged'}), i_) for i_, r_ in enumerate(results)
+                 if r_['error'] is None and not r_['unsupported']
+                 and any(o['status'] != 'discharged' and ':vacuity:' not in o['name'] for o in r_['obligations'])]
+        for _, i_ in sorted(cand_):
+            r_ = results[i_]
+            if time.time() - t_second > float(os.environ.get('PYVC_SECOND_BUDGET', '240')):
+                second.append({'function': '%s:%s' % tuple(r_['key']), 'skipped': 'time budget of the second attempts used up; first result kept'})
+                continue
+            if True:
+                c2_ = ctx_of.get(tuple(r_['key']), ctx)
+                CTX = c2_
+                c2_.timeout_ms = int(os.environ.get('PYVC_TIMEOUT_MS', timeout_ms)) * 3
+                c2_.obligations = []
+                c2_.__dict__['fail_counts'] = {}
+                r2_ = verify_one(tuple(r_['key']))
+                c2_.timeout_ms = int(os.environ.get('PYVC_TIMEOUT_MS', timeout_ms))
+                CTX = ctx
+                failed1 = sorted({o['name'] for o in r_['obligations'] if o['status'] != 'discharged'})
+                failed2 = sorted({o['name'] for o in r2_['obligations'] if o['status'] != 'discharged'})
+                second.append({'function': '%s:%s' % tuple(r_['key']), 'failed_first': failed1[:6], 'failed_second': failed2[:6]})
+                r2_['secs'] += r_['secs']
+                r2_['solver_time'] += r_['solver_time']
+                results[i_] = r2_
     # 3. aggregate
     agg = {}
     funcs = {}
@@ -481,6 +540,7 @@ def main():
             'lemmas': {n: {'paths': r.paths, 'secs': round(r.secs, 2), 'unsupported': r.unsupported} for n, r in lemma_reports.items()},
             'obligation_instances': sum(len(v) for v in agg.values()),
             'by_backend': by_backend, 'solver_seconds': round(solver_time, 2),
+            'second_attempts': second,
             'slowest_discharged': sorted(((o['secs'], o['name'][:100], o['backend']) for v in agg.values() for o in v
                                           if o['status'] == 'discharged'), reverse=True)[:5],
             'solver_budget': 'per obligation %d ms wall clock; an obligation whose only failure reason is the time budget is '
